@@ -19,6 +19,9 @@ pub struct Case {
     pub script: SubScript,
     /// seed of the deterministic code-separator sprinkling (0 = none)
     pub sprinkle: u32,
+    /// reach the transaction through a history (see sigcommon::History); the warming call uses one of the twelve flags
+    #[serde(default)]
+    pub history: Option<History>,
 }
 
 fn lcg(x: &mut u32) -> u32 {
@@ -73,7 +76,7 @@ impl Property for C10 {
     const ID: &'static str = "C10";
 
     fn rule() -> String {
-        "Transactions as in C03 (1..6 inputs, 0..6+ outputs, boundary-valued fields, parsed fresh), every input index, the six legacy flags 0x01,0x02,0x03,0x81,0x82,0x83, subscripts from the script grammar with OP_CODESEPARATOR sprinkled at every nesting depth (first, last, repeated, inside IF/ELSE branches) and 0xab bytes planted inside push payloads. Oracle: the original SignatureHash serialisation computed from the wire fields (refimpl::sighash::legacy_preimage). Non-trivial = input index > 0, a flag other than ALL, or a code separator inside a conditional; distinct by hash of the serialised case.".into()
+        "Transactions as in C03 (1..6 inputs, 0..6+ outputs, boundary-valued fields; 70 % parsed fresh, 30 % reached through the mutation API from a variant differing in one field after a sighash call of any of the twelve flags had filled the object's caches), every input index, the six legacy flags 0x01,0x02,0x03,0x81,0x82,0x83, subscripts from the script grammar with OP_CODESEPARATOR sprinkled at every nesting depth (first, last, repeated, inside IF/ELSE branches) and 0xab bytes planted inside push payloads. Oracle: the original SignatureHash serialisation computed from the wire fields (refimpl::sighash::legacy_preimage); the call is made twice on the same object and must repeat. Non-trivial = input index > 0, a flag other than ALL, or a code separator inside a conditional; distinct by hash of the serialised case.".into()
     }
 
     fn assumptions() -> Vec<String> {
@@ -85,8 +88,8 @@ impl Property for C10 {
     }
 
     fn strategy(_tier: Tier) -> BoxedStrategy<Case> {
-        (gtx_sig(), any::<u16>(), prop::sample::select(LEGACY_FLAGS.to_vec()), subscript(3), prop_oneof![1 => Just(0u32), 3 => any::<u32>()])
-            .prop_map(|(tx, idx, flag, script, sprinkle)| Case { tx, idx, flag, script, sprinkle })
+        (gtx_sig(), any::<u16>(), prop::sample::select(LEGACY_FLAGS.to_vec()), subscript(3), prop_oneof![1 => Just(0u32), 3 => any::<u32>()], prop::option::weighted(0.3, (0u8..12, 0u8..7, any::<u16>()).prop_map(|(warm_flag, field, which)| History { warm_flag, field, which })))
+            .prop_map(|(tx, idx, flag, script, sprinkle, history)| Case { tx, idx, flag, script, sprinkle, history })
             .boxed()
     }
 
@@ -102,8 +105,24 @@ impl Property for C10 {
         let sbytes = crate::gen::script::to_bytes(&els);
         let script = lib_call("Script::from_bytes", || Script::from_bytes(&sbytes))?.map_err(|e| failure("subscript_accepted", format!("Err({})", e), "Ok: grammar script"))?;
         let sh = sighash_of(c.flag)?;
-        let mut tx = parse_fresh(&r)?;
+        let all_flags: Vec<u8> = LEGACY_FLAGS.iter().chain(FORKID_FLAGS.iter()).cloned().collect();
+        let mut tx = match &c.history {
+            None => parse_fresh(&r)?,
+            Some(h) => match reach_through_history(&r, h, idx, &script, 0x0102030405060708, &all_flags)? {
+                Some(t) => {
+                    o.nt("reached-through-history");
+                    o.label_if((h.warm_flag as usize) % 12 < 6, "warmed-by-legacy-sighash");
+                    t
+                }
+                None => parse_fresh(&r)?,
+            },
+        };
         let got = lib_call("sighash_preimage", || tx.sighash_preimage(sh, idx, &script, 0x0102030405060708))?;
+        // a second call on the same object (whatever the first one cached) gives the same bytes
+        let again = lib_call("sighash_preimage", || tx.sighash_preimage(sh, idx, &script, 0x0102030405060708))?;
+        if got.as_ref().ok() != again.as_ref().ok() {
+            return Err(failure("legacy_preimage_repeatable", format!("{:?}", again.as_ref().map(|p| crate::props::common::short_hex(p)).map_err(|e| e.to_string())), format!("{:?}", got.as_ref().map(|p| crate::props::common::short_hex(p)).map_err(|e| e.to_string()))));
+        }
         let want = sighash::legacy_preimage(&r, idx, c.flag as u32, &sbytes);
         match (&got, &want) {
             (Ok(p), Some(w)) => {
